@@ -120,6 +120,8 @@ type hist struct {
 	n     *chain.Node // the baseline replica: Next reads committed state from it
 	w     *world
 	rich  int // users 0..rich-1 hold funds
+	// dueBias (C13): prefer operations on objects that fall due in the block being built.
+	dueBias bool
 }
 
 func (h *hist) addr(i int) string { return h.n.Users[i].Addr.String() }
@@ -189,6 +191,11 @@ func (h *hist) nextTx(t *rapid.T) (txSpec, bool) {
 	me := h.addr(u)
 	ctx := h.n.Ctx()
 	k := h.n.K
+	if h.dueBias && rapid.IntRange(0, 2).Draw(t, "due") == 0 {
+		if tx, ok := h.dueTx(t); ok {
+			return tx, true
+		}
+	}
 	fam := rapid.SampledFrom([]string{"coinswap", "coinswap", "farm", "htlc", "mt", "nft", "service", "service", "service", "oracle", "random", "record", "token", "bank"}).Draw(t, "family")
 	switch fam {
 	case "bank":
@@ -660,4 +667,63 @@ func (h *hist) observe(op blockOp, resp *abci.ResponseFinalizeBlock) {
 			}
 		}
 	}
+}
+
+
+// dueTx draws an operation aimed at an object that falls due in the next block (the one being built).
+func (h *hist) dueTx(t *rapid.T) (txSpec, bool) {
+	ctx := h.n.Ctx()
+	k := h.n.K
+	next := h.n.Height + 1
+	var cands []txSpec
+	// farm pools ending (or starting) in this block: creator adjusts/destroys, anyone stakes/unstakes/harvests
+	k.Farm.IteratorAllPools(ctx, func(p farmtypes.FarmPool) {
+		if p.EndHeight != next && p.StartHeight != next {
+			return
+		}
+		rules := k.Farm.GetRewardRules(ctx, p.Id)
+		if c := userIndex(h.n, p.Creator); c >= 0 && len(rules) > 0 {
+			cands = append(cands, txSpec{c, h.enc(&farmtypes.MsgAdjustPool{PoolId: p.Id, AdditionalReward: coins(rules[len(rules)-1].Reward, 7), Creator: p.Creator})})
+			cands = append(cands, txSpec{c, h.enc(&farmtypes.MsgDestroyPool{PoolId: p.Id, Creator: p.Creator})})
+		}
+		for _, st := range h.w.stakers {
+			if st.Pool == p.Id {
+				cands = append(cands, txSpec{st.User, h.enc(&farmtypes.MsgHarvest{PoolId: p.Id, Sender: h.addr(st.User)})})
+				cands = append(cands, txSpec{st.User, h.enc(&farmtypes.MsgUnstake{PoolId: p.Id, Amount: sdk.NewCoin(p.TotalLptLocked.Denom, sdkmath.OneInt()), Sender: h.addr(st.User)})})
+			}
+		}
+	})
+	// request contexts with a batch starting or expiring in this block: consumer pauses/starts/kills/updates
+	k.Service.IterateRequestContexts(ctx, func(id tmbytes.HexBytes, rc servicetypes.RequestContext) bool {
+		c := userIndex(h.n, rc.Consumer)
+		if c < 0 || rc.ModuleName != "" {
+			return false
+		}
+		due := false
+		for _, prefix := range [][]byte{servicetypes.GetNewRequestBatchKey(id, next), servicetypes.GetExpiredRequestBatchKey(id, next)} {
+			if keys, _ := rawStore(h.n, ctx, "service", prefix); len(keys) > 0 {
+				due = true
+			}
+		}
+		if !due {
+			return false
+		}
+		cands = append(cands,
+			txSpec{c, h.enc(&servicetypes.MsgPauseRequestContext{RequestContextId: id.String(), Consumer: rc.Consumer})},
+			txSpec{c, h.enc(&servicetypes.MsgStartRequestContext{RequestContextId: id.String(), Consumer: rc.Consumer})},
+			txSpec{c, h.enc(&servicetypes.MsgKillRequestContext{RequestContextId: id.String(), Consumer: rc.Consumer})},
+			txSpec{c, h.enc(&servicetypes.MsgUpdateRequestContext{RequestContextId: id.String(), Consumer: rc.Consumer, Timeout: 2, RepeatedFrequency: 2, RepeatedTotal: -1})})
+		return false
+	})
+	// HTLCs expiring in this block: claim attempts (the refund happens in the begin blocker, before the txs)
+	for _, x := range h.w.htlcs {
+		id, _ := hex.DecodeString(x.ID)
+		if c, found := k.HTLC.GetHTLC(ctx, id); found && int64(c.ExpirationHeight) == next {
+			cands = append(cands, txSpec{x.To, h.enc(&htlctypes.MsgClaimHTLC{Sender: h.addr(x.To), Id: x.ID, Secret: x.Secret})})
+		}
+	}
+	if len(cands) == 0 {
+		return txSpec{}, false
+	}
+	return pick(t, "duecand", cands), true
 }
